@@ -1,4 +1,5 @@
 import CaresLemmas.ClientExecRun
+import CaresLemmas.ClientCausalRun
 import CaresProps.C12b
 import CaresProps.C13b
 import CaresProps.C01
@@ -32,14 +33,17 @@ of the `.finish` actions executed for it (each hands exactly these to `userCb`).
 4. `client_replies_accepted` (unconditional): every reply handed to `clientOnCb` is in C05's `accepted` log, or the
    aged copy of a cache entry whose record is.
 
-**What is missing for the unconditional flat statement**: `Causal cid L` for every run from a `C01.Inv` state.  It
-is a property of the channel, not of the client: each sub-request completes at most once and only after it was
-started.  C01 proves it internally as the ghost-debt accounting `DebtOk` (`c.outstanding = subs + debt`; at a
-completion callback `Pre d s (.callback (.client cid) …)` gives `c.outstanding ≥ 1 + debt`, which with `Core.count`
-is `Causal`), but `Pre` of the *inner* calls is not exported by `goOk_exec`, and re-running that induction with the
-log threaded through is the size of the C01 development.  The hypothesis is not vacuous and not avoidable: without
-it a channel could deliver a second completion for one sub-request, and `walkFrom` (which lets a finished client
-"receive nothing more" and runs a callback's actions before the next completion) would differ from the execution.
+5. **Causality is a theorem** (`causal_of_run`, CaresLemmas/ClientCausal*.lean): for a run under the C01 discipline
+   (`RunI s t L`: the first state satisfies `C01.Inv`, every top-level call satisfies `C01.CallOk` — what the driver
+   establishes with `callOk_loop` / `callOk_accept` — or is `ares_destroy` called between API calls, every environment
+   step re-establishes `C01.Inv` and keeps the linked sub-requests) the log is `Causal` for every compound request
+   created during the run.  It is a property of the channel, not of the client: each sub-request completes at most
+   once and only after it was started.  The proof is C01's induction over the procedures, run on the instrumented
+   executor: the log invariant `#starts = #completions + (linked sub-requests of cid) + (hand-overs in flight)` is
+   maintained by every body, the preconditions of the nested calls being re-derived as in C01's `good_*` lemmas.
+   Hence the unconditional versions `client_events_are_fold`, `search_over_channel`, `search_names_over_channel`,
+   `gai_over_channel`, `gai_addresses_over_channel` below.  The hypothesis is not avoidable in the *pure* theorem
+   (`fold_of_replay`): `Example.NonCausal` is a log that replays but delivers one completion twice.
 -/
 namespace Cares.C12c
 open Cares.Chan Cares.Text Cares.Proto Cares.ClientWalk
@@ -197,5 +201,109 @@ theorem gai_replies_accepted {s t : St} {L : CLog} (hr : RunC s t L) (hc : Cache
   refine client_replies_accepted hr hc cid e ?_ r hr'
   rw [hev]
   exact List.mem_append_left _ (List.mem_flatten.mpr ⟨win, hw, he⟩)
+
+/-! ### causality of channel runs, and the unconditional statements
+
+`RunI s t L` (CaresLemmas/ClientCausalRun.lean) is `RunC s t L` under the C01 discipline; its constructors, in the
+vocabulary of C01: -/
+
+/-- a run starts in a state satisfying the C01 invariant -/
+theorem run_start {s : St} (h : Cares.C01.Inv s) : RunI s s [] := RunI.nil s h
+
+/-- a completed top-level call (any procedure but `runActs`, no reply handed in) whose C01 precondition holds -/
+theorem run_call {s t : St} {L : CLog} (hr : RunI s t L) (fuel : Nat) (call : Call) (htop : call.topC)
+    (hok : Cares.C01.CallOk t call) (hf : (exec fuel call t).1.outOfFuel = false) :
+    RunI s (exec fuel call t).1 (L ++ (execC fuel call t).2) := hr.call fuel call htop hok hf
+
+/-- the invariant holds after every step, so `C01.callOk_loop` / `C01.callOk_accept` apply -/
+theorem run_inv {s t : St} {L : CLog} (hr : RunI s t L) : Cares.C01.Inv t := hr.inv
+
+/-- accepting a request with a fresh token (`C01.callOk_accept`) is an environment step -/
+theorem run_accept {s t : St} {L : CLog} (hr : RunI s t L) (tok : Nat) (hb : tok < 10000 + t.reactSeq)
+    (hp : tok ∉ t.pendingToks) (hd : tok ∉ t.doneToks) :
+    RunI s { t with pendingToks := t.pendingToks ++ [tok] } L :=
+  hr.env rfl rfl rfl rfl rfl (Cares.C01.callOk_accept hr.inv tok hb hp hd).1 (fun _ => rfl)
+
+/-- **Causality of channel runs.**  In a run under the C01 discipline, at every completion delivered to a compound
+    request created during the run, strictly more sub-requests have been started for it than completions
+    delivered. -/
+theorem causal_of_run {s t : St} {L : CLog} (hr : RunI s t L) : ∀ cid, s.nextClient ≤ cid → Causal cid L :=
+  hr.causal
+
+/-- the invariant behind it: every sub-request started for `cid` has either completed (exactly once) or is still
+    linked in the qid table (`Sk.subs`: the queries owned by `cid` that can still get a completion) -/
+theorem subrequests_accounted {s t : St} {L : CLog} (hr : RunI s t L) (cid : Nat) (hnew : s.nextClient ≤ cid) :
+    (sentOf cid L).length = (evsOf cid L).length + t.sk.subs cid := by
+  have := (hr.lg hnew).cnt
+  simpa only [nsOf, ncOf, Nat.add_zero] using this
+
+/-- **R1 `client_events_are_fold`.**  Compound request `cid` is created during the run.  The names of the `.send` /
+    `.sendSlot` actions executed for `cid` are `(clientRun …).sent`, and the `.finish` handed to `userCb` is
+    `(clientRun …).fin`, where `clientRun` folds the completions `clientOnCb` was invoked with. -/
+theorem client_events_are_fold {s t : St} {L : CLog} (hr : RunI s t L) (cid : Nat) (hnew : s.nextClient ≤ cid)
+    (kind : String) (tok : Nat) (react : List Nat) (spec : ReqSpec) (fam : Nat)
+    (hs : CItem.start cid kind tok react spec fam ∈ L) :
+    sentOf cid L = (clientRun s.cfg cid kind tok react spec fam (evsOf cid L)).sent ∧
+    finsOf cid L = (clientRun s.cfg cid kind tok react spec fam (evsOf cid L)).fin.toList :=
+  client_events_are_fold_partial hr.run cid hnew hr.inv0 (causal_of_run hr cid hnew) kind tok react spec fam hs
+
+/-- **R2 (search)**, see `search_over_channel_partial` -/
+theorem search_over_channel {s t : St} {L : CLog} (hr : RunI s t L) (cid : Nat) (hnew : s.nextClient ≤ cid)
+    (c : Config) (hm : CfgMatches s.cfg c) (name : Name) (hser : Ser name)
+    (hal : lookupHostaliases c.noAliases c.aliases name = .error .enotfound)
+    (honion : isOnion (hex name) = false)
+    (tok : Nat) (react : List Nat) (spec : ReqSpec) (hspec : spec.name = hex name) (fam : Nat)
+    (hs : CItem.start cid "search" tok react spec fam ∈ L) :
+    let walk := searchWalk c name ((evsOf cid L).map searchOutcome)
+    sentOf cid L = tagNames spec.qtype walk.1 ∧
+    (finsOf cid L).map (fun f => stMap f.1) = if walk.1.length ≤ (evsOf cid L).length then [walk.2] else [] :=
+  search_over_channel_partial hr.run cid hnew hr.inv0 (causal_of_run hr cid hnew) c hm name hser hal honion tok react
+    spec hspec fam hs
+
+/-- names sent = `takeUntilStop candidates outcomes` -/
+theorem search_names_over_channel {s t : St} {L : CLog} (hr : RunI s t L) (cid : Nat) (hnew : s.nextClient ≤ cid)
+    (c : Config) (hm : CfgMatches s.cfg c) (name : Name) (hser : Ser name)
+    (hal : lookupHostaliases c.noAliases c.aliases name = .error .enotfound)
+    (honion : isOnion (hex name) = false)
+    (tok : Nat) (react : List Nat) (spec : ReqSpec) (hspec : spec.name = hex name) (fam : Nat)
+    (hs : CItem.start cid "search" tok react spec fam ∈ L) (names : List Name) (h : nameList c name = .ok names) :
+    sentOf cid L = tagNames spec.qtype (takeUntilStop names ((evsOf cid L).map searchOutcome)) :=
+  search_names_over_channel_partial hr.run cid hnew hr.inv0 (causal_of_run hr cid hnew) c hm name hser hal honion tok
+    react spec hspec fam hs names h
+
+/-- **R2 (gai)**, see `gai_over_channel_partial` -/
+theorem gai_over_channel {s t : St} {L : CLog} (hr : RunI s t L) (cid : Nat) (hnew : s.nextClient ≤ cid)
+    (c : Config) (hm : CfgMatches s.cfg c) (name : Name) (hser : Ser name)
+    (hal : lookupHostaliases c.noAliases c.aliases name = .error .enotfound)
+    (fam : Nat) (hfam : fam = 0 ∨ fam = 2 ∨ fam = 10)
+    (honion : isOnion (hex name) = false) (hlit : isV4Literal (hex name) = false)
+    (hloc : isLocalhost (hex name) = false) (hdns : DnsFirst s.cfg)
+    (tok : Nat) (react : List Nat) (spec : ReqSpec) (hspec : spec.name = hex name)
+    (hs : CItem.start cid "gai" tok react spec fam ∈ L)
+    (grps : List (List Ev)) (tail : List Ev) (hev : evsOf cid L = grps.flatten ++ tail)
+    (hlen : ∀ g ∈ grps, g.length = famCount fam) (htail : tail.length < famCount fam) :
+    let walk := gaiWalk c name (grps.map grpOutcome)
+    sentOf cid L = tagFam fam walk.1 ∧
+    (finsOf cid L).map (fun f => stMap f.1) = if walk.1.length ≤ grps.length then [walk.2] else [] :=
+  gai_over_channel_partial hr.run cid hnew hr.inv0 (causal_of_run hr cid hnew) c hm name hser hal fam hfam honion hlit
+    hloc hdns tok react spec hspec hs grps tail hev hlen htail
+
+/-- **R2 (gai addresses)**, see `gai_addresses_over_channel_partial` -/
+theorem gai_addresses_over_channel {s t : St} {L : CLog} (hr : RunI s t L) (cid : Nat) (hnew : s.nextClient ≤ cid)
+    (c : Config) (hm : CfgMatches s.cfg c) (name : Name) (hser : Ser name)
+    (hal : lookupHostaliases c.noAliases c.aliases name = .error .enotfound)
+    (fam : Nat) (hfam : fam = 0 ∨ fam = 2 ∨ fam = 10)
+    (honion : isOnion (hex name) = false) (hlit : isV4Literal (hex name) = false)
+    (hloc : isLocalhost (hex name) = false) (hdns : DnsFirst s.cfg)
+    (tok : Nat) (react : List Nat) (spec : ReqSpec) (hspec : spec.name = hex name)
+    (hs : CItem.start cid "gai" tok react spec fam ∈ L)
+    (grps : List (List Ev)) (tail : List Ev) (hev : evsOf cid L = grps.flatten ++ tail)
+    (hlen : ∀ g ∈ grps, g.length = famCount fam) (htail : tail.length < famCount fam)
+    (st : Chan.Status) (tm : Nat) (dg : String) (hfin : (st, tm, dg) ∈ finsOf cid L) :
+    (st = .ok → ∃ win, grps[(gaiWalk c name (grps.map grpOutcome)).1.length - 1]? = some win ∧
+        dg = addrDigest (win.flatMap evNodes) (win.foldl evAiName "")) ∧
+    (st ≠ .ok → dg = "ai=") :=
+  gai_addresses_over_channel_partial hr.run cid hnew hr.inv0 (causal_of_run hr cid hnew) c hm name hser hal fam hfam
+    honion hlit hloc hdns tok react spec hspec hs grps tail hev hlen htail st tm dg hfin
 
 end Cares.C12c
